@@ -19,8 +19,8 @@ func scC16Reverse(w *World, a Args, rng *rand.Rand) error {
 	http := a.Str("transport", "ws") == "http"
 	names := []string{"A", "B", "C", "D"}[:k]
 	clients := []*Client{}
-	for _, n := range names {
-		c, err := w.NewClient(ClientOpts{Name: n, NoPing: true, Reverse: true, HTTP: http, NoReconnect: true})
+	for i, n := range names {
+		c, err := w.NewClient(ClientOpts{Name: n, NoPing: true, Reverse: true, HTTP: http, NoReconnect: true, Alias2: a.Bool("alias2") && i%2 == 1})
 		if err != nil {
 			return err
 		}
